@@ -6,6 +6,8 @@ The fmt bodies are run on symbolic objects with the token-level formatter model.
          grammar (x<i>, !x<i>, juxtaposition = AND, 1, 0), denotes exactly the cube's conjunction,
          variables in increasing order, distinct cubes print distinct text; the canonical zero prints 0.
   C16.E  Ecube: same with ' ^ ' and a leading 1 for XNOR terms.
+  C16.V  value() of Cube / Ecube / Sop / Soes / Esop is that denotation (conjunction of literals, parity, OR / XOR
+         of the term values; the zero cube is false) - the rules of C12.L / C13.E / C13-15.V re-run for this property.
   C16.J  Sop / Soes print their terms joined by ' | ', Esop by ' ^ ' (the operator their value()
          reduces with: C13/C14/C15), every term once and in order, the empty form prints 0.
 Not decided: operator precedence of the combined text beyond the joiner (terms never contain the joiner
@@ -19,7 +21,8 @@ from ..harness import *
 from ..absint import new_cell
 from ..cubemodel import CubeModel, CUBE, ECUBE, arg_for
 from ..sopmodel import Container, SOP, ESOP, SOES, install_stubs
-from .C13 import ecube_fields
+from .C13 import ecube_fields, ecube_value_rule, container_value_rule
+from .C12 import cube_value_rule
 
 LEVEL = "other"
 
@@ -245,4 +248,18 @@ def run(chk):
             except Undecided as e:
                 v, d = UNDECIDED, e.cause
             chk.add("C16.J", key, v, d, where=where_of(b), sample=dict(obligation=key, verdict=v) if L == 2 else None)
+    # ------------------------------------------------------------------ C16.V what value() returns
+    # C16.C/E/J compare the text with the denotation of the *representation*; the property compares it with what
+    # value() returns: these are the value rules of C12/C13/C14/C15, re-run here so that C16 stands on its own
+    cube_value_rule(chk, facts, cm, "C16.V")
+    try:
+        vi, xi = ecube_fields(facts)
+        ecube_value_rule(chk, facts, vi, xi, facts.inherent_methods(ECUBE), "C16.V")
+    except (KeyError, Undecided) as e:
+        chk.undecided("C16.V", "Ecube::value", str(e))
+    for adt, op in ((SOP, "or"), (SOES, "or"), (ESOP, "xor")):
+        try:
+            container_value_rule(chk, facts, Container(facts, adt), op, "C16.V")
+        except (KeyError, Undecided) as e:
+            chk.undecided("C16.V", "%s::value" % adt.split("::")[-1], str(e))
     chk.notes["explanation"] = "token-level abstract interpretation of the Display impls; every abstract path of the cube printers fixes object and text, which are compared through the grammar"
